@@ -2,8 +2,7 @@
 import ast
 from ..fn import World
 from ..index import AnalysisError, dotted
-from ..astutil import text, short, endswith, calls_in, walk_no_nested
-from .. import events as E
+from ..astutil import text, short, endswith, walk_no_nested
 from . import _h_C as H
 from .c11 import _single
 
@@ -376,10 +375,20 @@ def r3_find_eq(run, w):
           isinstance(s.value, ast.Call) and text(s.value.func) == "self._get_sort_key" and
           isinstance(s.targets[0], ast.Name)]
   tests = []
+  flow = H.Flow(fn)
+
+  def resolve(e, nid):
+    """A local holding a key(...) call stands for that call."""
+    if isinstance(e, ast.Name):
+      rs = flow.roots(e, nid)
+      if len(rs) == 1 and rs[0].kind == "call" and not rs[0].path:
+        return rs[0].node
+    return e
+
   for n in cfg.nodes:
     if n.kind == "if" and isinstance(n.stmt.test, ast.Compare) and len(n.stmt.test.ops) == 1:
       t = n.stmt.test
-      l, r = t.left, t.comparators[0]
+      l, r = resolve(t.left, n.id), resolve(t.comparators[0], n.id)
       if not (keyv and isinstance(l, ast.Call) and isinstance(r, ast.Call) and
               text(l.func) == keyv[0] == text(r.func)):
         continue
